@@ -633,6 +633,11 @@ class _SetOperation(Selectable, Term):
     def __sub__(self, other: "QueryBuilder") -> "_SetOperation":
         return self.minus(other)
 
+    @property
+    def _selects(self) -> list:
+        # lets a set operation be used as an operand of another one (arity check and rendering)
+        return self.base_query._selects
+
     def __str__(self) -> str:
         return self.get_sql()
 
